@@ -139,7 +139,12 @@ class ModbusRtuFramer(ModbusFramer):
         """
         if len(self._buffer) > self._hsize:
             if not self._header:
-                self.populateHeader()
+                try:
+                    self.populateHeader()
+                except IndexError:
+                    # not enough data to tell the size of the frame yet
+                    self._header = {}
+                    return False
 
             return self._header and len(self._buffer) >= self._header['len']
         else:
@@ -226,19 +231,23 @@ class ModbusRtuFramer(ModbusFramer):
             unit = [unit]
         self.addToFrame(data)
         single = kwargs.get("single", False)
-        if self.isFrameReady():
+        while self.isFrameReady():
+            size = len(self._buffer)
             if self.checkFrame():
                 if self._validate_unit_id(unit, single):
                     self._process(callback)
                 else:
                     _logger.debug("Not a valid unit id - {}, "
                                   "ignoring!!".format(self._header['uid']))
-                    self.resetFrame()
-            else:
-                _logger.debug("Frame check failed, ignoring!!")
-                self.resetFrame()
-        else:
-            _logger.debug("Frame - [{}] not ready".format(data))
+                    # skip this frame only, later frames may be for us
+                    self.advanceFrame()
+            elif self._buffer:
+                # the frame is not complete yet, wait for the rest
+                _logger.debug("Frame - [{}] not ready".format(data))
+                self._header = {}
+                break
+            if len(self._buffer) >= size:
+                break
 
     def buildPacket(self, message):
         """
